@@ -98,9 +98,14 @@ func runC13(c *an.Ctx) {
 	spec, exemptions := serverGuardSpec(p, scope, construction)
 	guardedBy(c, spec, scope, construction)
 	listSpec := an.GuardSpec{
-		Lock:   "AuthorizedServers.mu",
-		Roots:  []an.Class{{Root: "T:GCAServer", Path: []string{"gcaServers"}}, {Root: "T:AuthorizedServers"}},
-		Exempt: func(cl an.Class) string { if cl.Path[len(cl.Path)-1] == "mu" { return "the mutex itself" }; return "" },
+		Lock:  "AuthorizedServers.mu",
+		Roots: []an.Class{{Root: "T:GCAServer", Path: []string{"gcaServers"}}, {Root: "T:AuthorizedServers"}},
+		Exempt: func(cl an.Class) string {
+			if cl.Path[len(cl.Path)-1] == "mu" {
+				return "the mutex itself"
+			}
+			return ""
+		},
 	}
 	guardedBy(c, listSpec, scope, construction)
 	c.Floor("LOCK-4", 60)
